@@ -534,6 +534,12 @@ class CallMixin:
             return z3.Extract(k, k, x) == 1
         return (zi(to_int(x)) / (2**k)) % 2 == 1
 
+    def b_sum32(self, args, kw, st, n):
+        """number of set bits of a 32-bit vector, as a 32-bit vector (specification of popcount)"""
+        x = args[0]
+        w = x.size()
+        return z3.Sum(*[z3.ZeroExt(w - 1, z3.Extract(i, i, x)) for i in range(w)])
+
     def b_tok(self, args, kw, st, n):
         return args[0]
 
@@ -563,6 +569,13 @@ class CallMixin:
     def b_zip(self, args, kw, st, n):
         ls = [a.items if isinstance(a, SList) else a for a in args]
         return SList([tuple(x) for x in zip(*ls)])
+
+    def b_Window(self, args, kw, st, n):
+        """rasterio.windows.Window(col_off, row_off, width, height): a plain record"""
+        return ("Window",) + tuple(args)
+
+    def b_rasterio_windows_Window(self, args, kw, st, n):
+        return self.b_Window(args, kw, st, n)
 
     def b_str(self, args, kw, st, n):
         if isinstance(args[0], (str, int)):
